@@ -256,3 +256,62 @@ func TestFindingF13BackfillExpiry(t *testing.T) {
 	}
 	require.True(t, found)
 }
+
+// F14 [C11,C16,C20] dropping a collection sets the bucket's whole feed map to nil: feeds of other collections are forgotten and
+// the next StartDCPFeed on that handle panics ("assignment to entry in nil map") while holding the bucket mutex.
+func TestFindingF14DropCollectionKeepsFeedMap(t *testing.T) {
+	b, c := findingBucket(t)
+	events := findingFeed(t, c) // a live feed on the default collection
+	name := sgbucket.DataStoreNameImpl{Scope: "s", Collection: "dropme"}
+	_, err := b.NamedDataStore(name)
+	require.NoError(t, err)
+	require.NoError(t, b.DropDataStore(name))
+	require.NoError(t, c.SetRaw("k", 0, nil, []byte(`{"v":1}`)))
+	require.NotNil(t, findingNext(t, events), "dropping another collection must not stop this collection's feed")
+	var panicked interface{}
+	done := make(chan struct{})
+	go func() {
+		defer close(done)
+		defer func() { panicked = recover() }()
+		args := sgbucket.FeedArguments{ID: "again", Backfill: sgbucket.FeedNoBackfill, Terminator: make(chan bool)}
+		_ = c.StartDCPFeed(context.Background(), args, func(e sgbucket.FeedEvent) bool { return true }, nil)
+	}()
+	select {
+	case <-done:
+	case <-time.After(3 * time.Second):
+		t.Fatal("StartDCPFeed hung")
+	}
+	require.Nil(t, panicked)
+}
+
+// F15 [C16,C20] closing the last handle of an on-disk bucket only stops the feeds of collections that handle had opened.
+func TestFindingF15LastCloseStopsAllFeeds(t *testing.T) {
+	url := uriFromPath(t.TempDir() + "/b")
+	h1, err := OpenBucket(url, "f15", CreateOrOpen)
+	require.NoError(t, err)
+	h2, err := OpenBucket(url, "f15", CreateOrOpen)
+	require.NoError(t, err)
+	done := make(chan struct{})
+	args := sgbucket.FeedArguments{ID: "x", Backfill: sgbucket.FeedNoBackfill, DoneChan: done}
+	require.NoError(t, h1.DefaultDataStore().(*Collection).StartDCPFeed(context.Background(), args, func(e sgbucket.FeedEvent) bool { return true }, nil))
+	h1.Close(context.Background())
+	h2.Close(context.Background()) // last handle: the store shuts down
+	select {
+	case <-done:
+	case <-time.After(3 * time.Second):
+		t.Fatal("the feed was not stopped when the store shut down")
+	}
+}
+
+// F16 [C13] Close is not idempotent: closing one handle twice releases the store under another open handle.
+func TestFindingF16DoubleClose(t *testing.T) {
+	url := uriFromPath(t.TempDir() + "/b")
+	h1, err := OpenBucket(url, "f16", CreateOrOpen)
+	require.NoError(t, err)
+	h2, err := OpenBucket(url, "f16", CreateOrOpen)
+	require.NoError(t, err)
+	defer h2.Close(context.Background())
+	h1.Close(context.Background())
+	h1.Close(context.Background())
+	require.NoError(t, h2.DefaultDataStore().SetRaw("k", 0, nil, []byte(`{"v":1}`)), "the other handle must keep working")
+}
